@@ -74,6 +74,7 @@ func genATCase(r *Rng, w *ATWorld, id string, o ATGenOpts) *ATCase {
 		}
 		c.Locals = append(c.Locals, l)
 	}
+	spellStatements(c)
 	return c
 }
 
@@ -94,6 +95,7 @@ func runC01(c *Ctx) {
 		if i >= n {
 			big := bigs[i-n]
 			cs.Classes = nil
+			cs.Validate = true // the current-row query of the validation is the one that is batched on rollback
 			cs.Schema = &ATSchema{Table: w.NewTableName("big"), Cols: []ATCol{{Name: "id", Typ: 'i'}, {Name: "c1", Typ: 'i'}}, PK: []int{0}}
 			cs.Rows = nil
 			for k := 0; k < big; k++ {
@@ -107,6 +109,7 @@ func runC01(c *Ctx) {
 		if !c.Want(cid) {
 			continue
 		}
+		w := worldFor(w, cs, i)
 		run := &ATRun{w: w, c: cs}
 		run.PhaseOne(nil)
 		run.Snap()
@@ -133,6 +136,7 @@ func runC01(c *Ctx) {
 		c.Out.Count("ser." + cs.Ser)
 		c.Out.Count("compress." + cs.Comp)
 		c.Out.Count(fmt.Sprintf("branches.%d", len(run.Branches)))
+		c.Out.Count("datasource." + w.DBName)
 		w.Eng.Exec("DELETE FROM undo_log")
 		w.Eng.DropTable(cs.Schema.Table) // thousands of tables make every catalogue query (and the meta refresher) quadratic
 		for _, cl := range cs.Classes {
